@@ -129,38 +129,41 @@ func runWith(prog *core.Program, id, tier, only string, verbose bool, start time
 		ch.Run(c)
 	}()
 	if tier == "thorough" && only == "" {
-		// second configuration: the same obligations over the program as type-checked for a 32-bit target
-		// (other build-constrained files, 32-bit int); anything not discharged there that is discharged in the
-		// default configuration is added under its own key
-		func() {
-			defer func() {
-				if r := recover(); r != nil {
-					c.Unknown("INTERNAL", "GOARCH=386 pass: "+fmt.Sprint(r), 0, fmt.Sprintf("checker panic: %v", r))
+		// further configurations: the same obligations over the program as type-checked for a 32-bit target (32-bit
+		// int) and for another operating system (other build-constrained files); anything not discharged there that
+		// is discharged in the default configuration is added under its own key
+		for _, cfg := range []string{"386", "windows/amd64"} {
+			cfg := cfg
+			func() {
+				defer func() {
+					if r := recover(); r != nil {
+						c.Unknown("INTERNAL", cfg+" pass: "+fmt.Sprint(r), 0, fmt.Sprintf("checker panic: %v", r))
+					}
+				}()
+				prog2, err := core.Load(cfg, nil)
+				if err != nil {
+					c.Unknown("INTERNAL", cfg+" load", 0, err.Error())
+					return
 				}
+				c2 := core.NewCtx(prog2, id, tier)
+				ch.Run(c2)
+				bad := map[string]bool{}
+				for _, o := range c.Obs {
+					if o.Verdict != core.Discharged {
+						bad[o.Key] = true
+					}
+				}
+				added := 0
+				for _, o := range c2.Obs {
+					if o.Verdict != core.Discharged && !bad[o.Key] {
+						o.Key += " [" + cfg + "]"
+						c.Obs = append(c.Obs, o)
+						added++
+					}
+				}
+				c.Note(fmt.Sprintf("thorough: pass for %s evaluated %d obligations; %d differ from the default configuration", cfg, len(c2.Obs), added))
 			}()
-			prog386, err := core.Load("386", nil)
-			if err != nil {
-				c.Unknown("INTERNAL", "GOARCH=386 load", 0, err.Error())
-				return
-			}
-			c2 := core.NewCtx(prog386, id, tier)
-			ch.Run(c2)
-			bad := map[string]bool{}
-			for _, o := range c.Obs {
-				if o.Verdict != core.Discharged {
-					bad[o.Key] = true
-				}
-			}
-			added := 0
-			for _, o := range c2.Obs {
-				if o.Verdict != core.Discharged && !bad[o.Key] {
-					o.Key += " [GOARCH=386]"
-					c.Obs = append(c.Obs, o)
-					added++
-				}
-			}
-			c.Note(fmt.Sprintf("thorough: second pass with GOARCH=386 evaluated %d obligations; %d differ from the default configuration", len(c2.Obs), added))
-		}()
+		}
 	}
 	if verbose || only != "" {
 		for _, o := range c.Obs {
